@@ -251,6 +251,14 @@ func (h *hashSet) insert(x uint64) (isNew, full bool) {
 	return true, false
 }
 
+func (h *hashSet) has(x uint64) bool {
+	s := &h.shards[x>>56]
+	s.mu.Lock()
+	defer s.mu.Unlock()
+	_, ok := s.m[x]
+	return ok
+}
+
 var (
 	allStates   *hashSet // distinct states over all stages (64-bit hashes of the canonical key)
 	leafSetFull int32
@@ -415,6 +423,9 @@ func (e *explorer) expand(n *node, cn counts, forceCopyCheck bool, child func(c 
 // the first time the state is seen in the whole run.
 func (e *explorer) leaf(c *node, cn counts) {
 	cn["frontier_transitions"]++
+	if e.seen.has(hash64(c.st.key())) {
+		return // also a state of an expanded level: visited there
+	}
 	if isNew, _ := countState(c, cn); isNew {
 		visit(c, false, cn)
 	}
@@ -477,7 +488,6 @@ func (e *explorer) run(roots []*node) bool {
 			cn["expanded_states"]++
 			cn.flush()
 		})
-		r.Max("stage_"+e.st.name+"_completed_depth", int64(d+1))
 		if done < int64(len(level)) || e.expired() {
 			r.NotExhaustive(fmt.Sprintf("stage %s (<=%d entries, depth %d): deadline reached while expanding level %d: %d of %d states of that level expanded",
 				e.st.name, e.st.k, e.st.depth, d, done, len(level)))
@@ -486,6 +496,7 @@ func (e *explorer) run(roots []*node) bool {
 		if last || inPlace {
 			break
 		}
+		r.Max("stage_"+e.st.name+"_completed_depth", int64(d+1))
 		// sequential, deterministic de-duplication of the next level
 		var nl []*node
 		for _, cs := range next {
